@@ -18,6 +18,9 @@ SCHEMA = {
     "q": [("j1", "f", True), ("j2", "f", True), ("z", "f", True)],
     # a right-hand table whose key is called k and which ALSO has an ordinary column named like the left key (g): self-join style schemas
     "s": [("k", "i", True), ("g", "i", True), ("z", "f", True)],
+    # the same three columns stored in two different column orders (positional consumers: UNION ALL)
+    "t1": [("v", "f", True), ("x", "f", True), ("g", "i", True)],
+    "t2": [("g", "i", True), ("x", "f", True), ("v", "f", True)],
 }
 D = "TableDescription(table_name='d', column_names=['g', 'x', 'y'])"
 E = "TableDescription(table_name='e', column_names=['g', 'z'])"
